@@ -196,7 +196,7 @@ Definition step_st (c : cfg) (s : st) (e : ev) : st := fst (step c s e).
      6 = call() for every caller still without a future, then every service handle is dropped (no-op).
      Events of ops 1, 2, 4, 5 whose caller id is outside 0..n-1 are ignored (no trace row).
    After the scripted events every caller 0..n-1 is dropped and cap+1 fresh callers
-   n..n+cap are polled once each (capacity probe, C07).
+   n..n+cap are polled once each (capacity probe, C07); PROBE_BIG of them for a sentinel capacity.
    trace = per event [r; inner calls started in this poll; seen; wake mask over the first 120
                       callers; in-flight count; id+1 of the request whose inner call started] *)
 Definition outcome_of (z : Z) : outcome :=
@@ -244,18 +244,33 @@ Fixpoint run_evs (c : cfg) (total : nat) (s : st) (evs : list ev) : list Z :=
       ++ run_evs c total s' rest
   end.
 
+(* Capacity sentinel: a first script field >= 10^15 stands for a max_concurrent_calls at or above
+   tokio's Semaphore::MAX_PERMITS = usize::MAX >> 3 (10^15 = usize::MAX, 10^15+1 = MAX_PERMITS+1,
+   10^15+2 = MAX_PERMITS): Bulkhead::new clamps the capacity to MAX_PERMITS (fix 40a6972).  Such a
+   capacity cannot be written as a (unary) nat in an executable model; a script has at most 999
+   scripted callers and, for these scripts, PROBE_BIG probe callers, and a bulkhead whose capacity
+   is at least the number of callers that ever exist never refuses anybody, so run_script uses
+   BIG_CAP (> 999 + PROBE_BIG) for it.  The theorems are for every cap, MAX_PERMITS included. *)
+Definition CAP_SENTINEL : Z := 1000000000000000.
+Definition BIG_CAP : nat := 2000.
+Definition PROBE_BIG : nat := 8.
+
 Definition cfg_of (sc : list Z) : cfg :=
-  {| cap := Z.to_nat (zn sc 0);
+  {| cap := if CAP_SENTINEL <=? zn sc 0 then BIG_CAP else Z.to_nat (zn sc 0);
      max_wait := if zn sc 1 <? 0 then None else Some (ns_of (zn sc 1)) |}.
 
 Definition callers_of (sc : list Z) : nat := Z.to_nat (zn sc 2 mod 1000).
 
 Definition script_evs (sc : list Z) : list ev := evs_of (callers_of sc) (chunk3 (skipn 3 sc)).
 
-Definition probe_evs (c : cfg) (n : nat) : list ev :=
-  map Drop (seq 0 n) ++ map Poll (seq n (cap c + 1)).
+(* number of fresh callers polled by the capacity probe: cap + 1, or PROBE_BIG for a sentinel capacity *)
+Definition probe_len (sc : list Z) : nat :=
+  if CAP_SENTINEL <=? zn sc 0 then PROBE_BIG else (cap (cfg_of sc) + 1)%nat.
+
+Definition probe_evs (n k : nat) : list ev :=
+  map Drop (seq 0 n) ++ map Poll (seq n k).
 
 Definition run_script (sc : list Z) : list Z :=
   let c := cfg_of sc in
   let n := callers_of sc in
-  run_evs c (Nat.min (n + cap c + 1) 120) (init c) (script_evs sc ++ probe_evs c n).
+  run_evs c (Nat.min (n + probe_len sc) 120) (init c) (script_evs sc ++ probe_evs n (probe_len sc)).
